@@ -224,6 +224,10 @@ def do_replay(prop: str, path: str) -> int:
         # C16: a registry of realistic size changed by a concurrent task k loop iterations after an anchor
         from .props import churn
         return churn.replay(case)
+    if "concurrent" in case:
+        # C01: concurrent Gateway.send calls over a transport whose write suspends, under a schedule
+        from .props import codec_concurrent
+        return codec_concurrent.replay(case)
     if "interference" in case:
         from .props import codec_interference
         codec_interference.replay(case)
